@@ -155,12 +155,9 @@ pub(crate) fn rem(lhs: &Value, rhs: &Value) -> TeraResult<Value> {
             }
 
             let val = match (left, right) {
-                (Number::Integer(a), Number::Integer(b)) => match a.checked_rem_euclid(b) {
-                    Some(val) => Value::from(val),
-                    None => {
-                        return Err(Error::message(format!("Unable to perform {lhs} % {rhs}")));
-                    }
-                },
+                // `b` is not zero here, so the only overflowing case is `i128::MIN % -1` whose
+                // exact result is 0, which is what the wrapping version returns
+                (Number::Integer(a), Number::Integer(b)) => Value::from(a.wrapping_rem_euclid(b)),
                 (Number::Float(a), Number::Float(b)) => Value::from(a.rem_euclid(b)),
                 _ => unreachable!(),
             };
